@@ -213,11 +213,16 @@ def run_case(case):
     if (case.get("updater") or {}).get("fallback") == "default":
         out.label("default-fallback-updater")
         variants.append(("after-earlier-seed-updates", ["plain", "history"]))
+    variants.append(("after-abandoned-replication-and-cleanup", ["plain", "abandon"]))
     for name, drive in variants:
         c_ = case
         if drive[-1] == "history":
             c_, drive = dict(case, apply_history=True), drive[:1]
-        d = common.run_program(c_, drive[:1] + drive[2:] if drive[-1] == "twice" else drive, twice=drive[-1] == "twice")
+        if drive[-1] == "abandon":
+            d = common.run_program(c_, drive[:1], twice="abandon")
+        else:
+            d = common.run_program(c_, drive[:1] + drive[2:] if drive[-1] == "twice" else drive,
+                                   twice=drive[-1] == "twice")
         if d != plain:
             out.fail("digest-differs-" + name, _first_diff(plain, d))
             break
